@@ -464,3 +464,38 @@ mod t_shm_writer {
         assert_eq!(ceb, expected);
     }
 }
+
+/// Verification wrappers exposing the private updater to an external harness.
+#[cfg(feature = "verif")]
+pub mod verif {
+    use super::*;
+
+    pub fn extract_bound(tracking: Tracking) -> (i64, ChronyClockStatus) {
+        extract_bound_from_tracking(tracking)
+    }
+
+    /// Handle on the real `ShmUpdater`.
+    pub struct Updater<W: ShmWrite>(ShmUpdater<W>);
+
+    impl<W: ShmWrite> Updater<W> {
+        pub fn new(writer: W, max_drift_ppb: u32) -> Self {
+            Updater(ShmUpdater::new(writer, max_drift_ppb))
+        }
+        pub fn process_clock_update(
+            &mut self,
+            tracking: Tracking,
+            phc_error_bound: i64,
+            as_of: libc::timespec,
+        ) {
+            self.0.process_clock_update(tracking, phc_error_bound, as_of)
+        }
+        pub fn process_missing_clock_update(&mut self, within_grace_period: bool) {
+            self.0.process_missing_clock_update(within_grace_period)
+        }
+    }
+
+    /// Run the real message loop until it receives `ThreadAbort`.
+    pub fn run_process_messages<W: ShmWrite>(ctx: Context, updater: Updater<W>) {
+        process_messages(ctx, updater.0)
+    }
+}
